@@ -223,7 +223,7 @@ func contractKey(fd *ast.FuncDecl) string {
 }
 
 func mangleKey(k string) string {
-	k = strings.NewReplacer("(*", "P", ")", "", ".", "_").Replace(k)
+	k = strings.NewReplacer("(*", "P", ")", "", ".", "_", "#", "_").Replace(k)
 	return k
 }
 
@@ -398,10 +398,16 @@ func (e *Engine) genGhost(tp *TargetPkg) ([]byte, error) {
 		}
 	}
 	decls := map[string]*ast.FuncDecl{}
+	ninit := 0
 	for _, f := range tp.Files {
 		for _, d := range f.Decls {
 			if fd, ok := d.(*ast.FuncDecl); ok {
-				decls[contractKey(fd)] = fd
+				k := contractKey(fd)
+				if k == "init" && fd.Recv == nil {
+					ninit++
+					k = fmt.Sprintf("init#%d", ninit) // go/ssa numbers init functions the same way
+				}
+				decls[k] = fd
 			}
 		}
 	}
@@ -769,7 +775,7 @@ func Load(rel []string, ghostDir string, extra []string) (*Engine, error) {
 		tp.GhostSrc["zz_vs_generated.go"] = gen
 		pf, err := parser.ParseFile(fset, filepath.Join(p.Dir, "zz_vs_generated.go"), gen, parser.ParseComments|parser.SkipObjectResolution)
 		if err != nil {
-			return nil, fmt.Errorf("generated ghost code does not parse: %v\n%s", err, gen)
+			return nil, fmt.Errorf("generated ghost code does not parse: %v", err)
 		}
 		files = append(files, pf)
 		prel := []byte("package " + p.Types.Name() + "\n" + preludeSrc)
@@ -828,7 +834,9 @@ func Load(rel []string, ghostDir string, extra []string) (*Engine, error) {
 		for k, c := range tp.Contracts {
 			// re-resolve object in the re-checked package
 			var fn *ssa.Function
-			if c.Decl.Recv == nil {
+			if c.Decl.Recv == nil && strings.HasPrefix(k, "init#") {
+				fn = tp.SSA.Func(k)
+			} else if c.Decl.Recv == nil {
 				fn = tp.SSA.Func(c.Decl.Name.Name)
 			} else {
 				obj, _ := tp.Info.Defs[c.Decl.Name].(*types.Func)
